@@ -1,5 +1,8 @@
 package main
 
 func (e *executor) other(t []string) (string, bool) {
+	if r, ok := e.agentOp(t); ok {
+		return r, true
+	}
 	return "", false
 }
